@@ -73,13 +73,27 @@ def gen_callcache_consts():
     acc = strip_comments(rd("runtime/src/vm/globals/access.rs"))
     clear_re = re.compile(r"self\s*\.\s*call_site_cache\s*(\.\s*clear\s*\(\s*\)|\.\s*truncate\s*\(\s*0\s*\)|=\s*Vec::new\s*\(\s*\))")
     clears = all(clear_re.search(fn_body(acc, f)) is not None for f in ("set_global", "set_global_by_index"))
-    # fast path: does 78 compare the cached pointer with the current global before using the entry?
+    # fast path: 78 uses call_site_cache[slot] only when the entry was built from the callee cached at the
+    # site (`owner`) and the global still denotes that callee -- both checks before the entry is used
     mono = strip_comments(rd("runtime/src/vm/dispatch/ops/call_global_mono.inc"))
-    miss = mono.find("self.globals_by_index[idx]")
     hit = mono.find("call_site_cache.get_unchecked")
-    if hit < 0 or miss < 0:
+    use = mono.find("let callee_ref_tmp")
+    if hit < 0 or use < 0 or "self.globals_by_index[idx]" not in mono:
         raise ExtractError("call_global_mono.inc: fast path / miss path shape not recognised")
-    validates = miss < hit          # a read of the current global before the cached entry is used
+    guard = mono[hit:use]
+    validates = (re.search(r"cached\s*\.\s*owner\s*==\s*cached_func_ptr", guard) is not None
+                 and re.search(r"self\s*\.\s*globals_by_index\s*\[\s*idx\s*\]\s*\.\s*as_ptr\(\)\s*==\s*Some\(\s*cached_func_ptr\s*\)", guard) is not None)
+    fills = len(re.findall(r"owner\s*:\s*(current_func_ptr|new_func_ptr)", cg + mono))
+    if validates and fills != 4:
+        raise ExtractError(f"expected the 4 cache fills to record `owner`, found {fills}")
+    # 104: a site whose global no longer denotes the cached native rewrites itself to CallGlobal and is re-dispatched
+    m104 = re.search(r"\b%d\s*=>\s*\{" % ops["CallGlobalNative"], calls)
+    if not m104:
+        raise ExtractError("calls.inc: arm of CallGlobalNative not found")
+    arm = calls[m104.end():]
+    native_follows = (re.search(r"\|\s*\(%d\s*<<\s*24\)" % ops["CallGlobal"], arm) is not None
+                      and re.search(r"ip\s*-=\s*1\s*;\s*continue\s*;", arm) is not None
+                      and "p != native_ptr" in arm)
     # serializer
     ser = fn_body(strip_comments(rd("bytecode/src/asm/binary.rs")), "write_function")
     ser_ok = (re.search(r"opcode\s*==\s*%d" % ops["CallGlobalMono"], ser) is not None
@@ -105,5 +119,6 @@ def gen_callcache_consts():
            f"Definition MAX_CALL_SITE_SLOTS : N := {lim['MAX_CALL_SITE_SLOTS'][0]}%N.\n",
            f"Definition SET_GLOBAL_CLEARS_CACHE : bool := {b(clears)}.\n",
            f"Definition MONO_FAST_PATH_VALIDATES : bool := {b(validates)}.\n",
-           f"Definition REPL_SLOT_COUNTER_RESTARTS : bool := {b(restarts)}.\n"]
+           f"Definition REPL_SLOT_COUNTER_RESTARTS : bool := {b(restarts)}.\n",
+           f"Definition NATIVE_SITE_FOLLOWS_REBINDING : bool := {b(native_follows)}.\n"]
     return write_if_changed("CallCacheConsts.v", "".join(out))
